@@ -40,7 +40,7 @@ NOT_VERIFIED = [
     "LargestRemainder('hare') is a minimal hand model (Hare quota, accept_equal, on_overaward='error', no max_seats; the "
     'cap-overshoot branch is unreachable for the Hare quota and answers Unmodelled); termination and final = proportional '
     'are discharged for HighestAverages only',
-    'the unfuelled while-loops are modelled with fuel = 400 evaluator calls; the same bound is imposed on the real code '
+    'the unfuelled while-loops are modelled with fuel = 200 evaluator calls; the same bound is imposed on the real code '
     'by a transparent counting proxy around the evaluator (FuelExhausted on both sides)',
     'max_seats is passed through by the flat models but always {} in the generated cases; the by-constituency models '
     'take no max_seats',
@@ -62,7 +62,7 @@ EXHAUSTIVE = {'thorough': False}
 NAMES = Names(prefix='p')
 CNAMES = Names(prefix='c')
 EVALS = ['d_hondt', 'sainte_lague', 'hare_lr']
-FUEL = 400          # evaluator calls the levelling loop may make (same bound in the model)
+FUEL = 200          # evaluator calls the levelling loop may make (same bound in the model)
 
 
 class FuelExhausted(Exception):
@@ -602,8 +602,9 @@ def _cty_case(rng, ev=None, op=None, wrap=None):
     nc = rng.randint(2, 3)
     ev = ev or rng.choice(EVALS)
     cvotes, cprev, app = [], [], []
+    vkind = rng.choice(['small', 'mid', 'mid', 'skew', 'skew'])
     for c in range(nc):
-        vs = _gen_votes(rng, m, rng.choice(['small', 'mid', 'skew']))
+        vs = _gen_votes(rng, m, vkind)
         seats = rng.randint(0 if rng.random() < 0.1 else 1, 8)
         cvotes.append([c, [[i, num_str(v)] for i, v in enumerate(vs)]])
         app.append([c, seats])
@@ -673,13 +674,13 @@ def _post_tags(case):
 
 
 def generate(rng, tier):
-    N = 600 if tier == 'quick' else 6000
+    N = 2000 if tier == 'quick' else 15000
     cases = []
     for _ in range(N):
         cases.append(_flat_case(rng))
     for _ in range(N // 6):
         cases.append(_cty_case(rng))
-    per = 12 if tier == 'quick' else 120
+    per = 15 if tier == 'quick' else 150
     for _ in range(per):
         for ev in EVALS:
             cases.append(_flat_case(rng, kind='level', ev=ev, dmode='skew', vkind='skew'))          # iterations >= 2
